@@ -221,6 +221,29 @@ def step (st : St) (l : Line) : St × List Msg :=
         | none => (st, cmp "close" "err:other" rhead)
         | some s' => ({ st with store := s' }, cmp "close" "ok" rhead ++
             (if rhead = "ok" then [] else [Msg.prop s!"Close failed: {l.res}"]) ++ [Msg.flag "close"])
+    | "paths" =>
+      let order := parseOrder (ra.get "order")
+      if !isPerm order m.inext.keys then
+        (st, [Msg.corr s!"paths: implementation wrote buckets [{natList order}] but the model's pool holds [{natList m.inext.keys}]"])
+      else
+        match storeClose st.store order with
+        | none => (st, cmp "paths" "err:other" rhead)
+        | some s' =>
+          -- model-side: the snapshot path and the rescan path give the same table (checked here too)
+          let viaSnap := openStore st.cfg s'.disk
+          let viaScan := openStore st.cfg { s'.disk with snap := none }
+          let nz := fun (b : NMap Nat) => b.filter (fun x => x.2 ≠ 0)
+          let same : Bool := match viaSnap.2, viaScan.2 with
+            | .ok a, .ok b => nz a.buckets == nz b.buckets
+            | _, _ => false
+          let tables := ra.get "tables"
+          match viaSnap with
+          | (d', .ok m') =>
+            ({ st with store := { disk := d', mem := some m' } },
+              cmp "paths" "ok" rhead ++ (if same then [] else [Msg.corr "paths: model's snapshot and rescan tables differ"]) ++
+              (if tables = "same" then [] else [Msg.prop s!"bucket tables of the live store, the snapshot path and the rescan path differ: {tables}"]) ++
+              (if rhead = "ok" then [] else [Msg.prop s!"close/reopen failed: {l.res}"]) ++ [Msg.flag "reopen", Msg.flag "paths"])
+          | (d', .error e) => ({ st with store := { disk := d', mem := none } }, cmp "paths" (openErrStr e) rhead)
     | "igc" =>
       let budget : Budget := if l.args.get "budget" = "-1" then none else some (l.args.nat "budget")
       let (r, m', d', _) := indexGC m d (l.args.get "scanfree" = "1") budget
